@@ -116,9 +116,12 @@ def run(res, f, tier):
                    "%s hands mutable state other than the function cache (%s inside %s) to the evaluation of every rule: what one rule leaves there changes the next rule's outcome"
                    % (short_callee(d), sorted(set(extra)), ts_), {"fn": d, "param": b_["locals"][i].get("name")})
     # ---- evaluate_value
+    # the rule list under its role name, whatever private struct carries it (`self.rules.rules` in a RuleList newtype)
+    import roles
+    canon = roles.Canon(f, "ruleset::RuleSet", "self")
     got = []
     for s, rv in paths:
-        got.append((dict(norm_cond(c) for c in s.conds), events_of(s), show(norm(it.resolve(s, rv))), set(s.flags)))
+        got.append((canon(dict(norm_cond(c) for c in s.conds)), [tuple(canon(list(e))) for e in events_of(s)], canon(show(norm(it.resolve(s, rv)))), set(s.flags)))
     # every path: a plain forward iteration over self.rules; per item exactly one per-rule evaluation of that rule's own
     # expression whose awaited result is stored (not branched on, not propagated) together with that rule; nothing
     # else decides the path; the result is Ok(all outcomes, in order)
